@@ -209,6 +209,9 @@ func (w *World) fetch(nd *Node, hash hotstuff.Hash) (*hotstuff.Block, bool) {
 		if !(w.syncPhaseFor(nd) && w.syncPhaseFor(peer)) && !w.net.connected(nd.addr, peer.addr, w.now()) {
 			continue
 		}
+		if w.viewCut(nd, peer.addr) {
+			continue
+		}
 		if w.adv != nil {
 			if lie := w.adv.onFetch(peer, nd, hash); lie != nil {
 				replies[uint32(peer.id)] = hotstuffpb.BlockToProto(lie)
@@ -251,6 +254,38 @@ func (w *World) fetch(nd *Node, hash hotstuff.Hash) (*hotstuff.Block, bool) {
 	return hotstuffpb.BlockFromProto(pb), true
 }
 
+// viewCut: the plan's partition for the view the sender is in separates it from the address to.
+func (w *World) viewCut(from *Node, to int) bool {
+	if len(w.plan.ViewParts) == 0 {
+		return false
+	}
+	if cur := from.states.View(); cur != from.vcView {
+		from.vcView, from.vcSince = cur, w.now()
+	}
+	if w.now()-from.vcSince > 3*time.Duration(w.plan.ViewDur.Ms)*time.Millisecond {
+		return false // stuck in this view for three timeouts: the scenario moves on, the partition dissolves for this sender
+	}
+	v := int(from.states.View())
+	for _, vp := range w.plan.ViewParts {
+		if vp.View != v {
+			continue
+		}
+		gf, gt := -1, -2
+		for i, grp := range vp.Groups {
+			for _, a := range grp {
+				if a == from.addr {
+					gf = i
+				}
+				if a == to {
+					gt = i
+				}
+			}
+		}
+		return gf != gt
+	}
+	return false
+}
+
 // fetchable reports, without drawing anything or touching any replica, that a block fetch issued by nd at this
 // instant is certain to succeed: no fetch failures are being injected and an honest, running, reachable peer holds
 // the block (the quorum function picks any reply with the requested hash, so lying peers cannot spoil it).
@@ -263,6 +298,9 @@ func (w *World) fetchable(nd *Node, hash hotstuff.Hash) bool {
 			continue
 		}
 		if !(w.syncPhaseFor(nd) && w.syncPhaseFor(peer)) && !w.net.connected(nd.addr, peer.addr, w.now()) {
+			continue
+		}
+		if w.viewCut(nd, peer.addr) {
 			continue
 		}
 		if _, ok := peer.bc.LocalGet(hash); ok {
@@ -306,6 +344,11 @@ func (w *World) transmit(m *Msg, fromAddr int) {
 	m.n = k
 	r := func(i uint64) float64 {
 		return unit(mix(p.Inner, 0x6c696e6b, uint64(int64(fromAddr)+1000), uint64(int64(m.to.addr)+1000), k, i))
+	}
+	if m.from != nil && w.viewCut(m.from, m.to.addr) {
+		w.fault("view-partition-drop")
+		w.logf("VCUT %s->%s %s (sender in view %d)", addrStr(fromAddr), m.to, m.kind, m.from.states.View())
+		return
 	}
 	synced := m.from != nil && w.syncPhaseFor(m.from) && w.syncPhaseFor(m.to)
 	if !synced && r(0) < p.Links.Drop {
